@@ -870,3 +870,15 @@ Proof.
   intros shorten clean o p t H. unfold stacks_of.
   destruct (make_initial_stacks shorten clean o p) as [stacks s]. simpl. now apply compute_total_meets_spec.
 Qed.
+
+(* sources of frames whose functions live in different files are different table slots -- also when
+   path trimming makes the DISPLAYED file names equal *)
+Lemma files_apart_lemma : forall shorten clean o p i i' src src' k k',
+  nth_error (ss_sources (stacks_of shorten clean o p)) i = Some src ->
+  nth_error (ss_sources (stacks_of shorten clean o p)) i' = Some src' ->
+  so_key src = Some k -> so_key src' = Some k' -> k_file k <> k_file k' ->
+  trim_path (o_trim o) (k_file k) = trim_path (o_trim o) (k_file k') -> i <> i'.
+Proof.
+  intros shorten clean o p i i' src src' k k' H H' Hk Hk' Hne _ Heq. subst i'.
+  rewrite H in H'. inversion H'; subst src'. rewrite Hk in Hk'. inversion Hk'; subst k'. now apply Hne.
+Qed.
